@@ -17,15 +17,16 @@ struct FCase {
     int prec = 6, flags = 0;   // dtostre
     uint64_t u = 0; int base = 10;   // integer formatters
     std::string text;      // ParamCopyText: the program data as written (with quotes)
+    bool nullLen = false;  // ParamCopyText called with copy_len == NULL (refused today; if a tree accepts it, the bounds still hold)
     size_t len = 0;
 };
 static std::string describe(const FCase &c) {
-    return fmt("%s len=%zu d=%.17g unit=%d special=%d tag=%d prec=%d flags=%d u=%llu base=%d text=", kFn[c.fn], c.len, c.d, c.unit, c.special, c.tag, c.prec, c.flags,
-               (unsigned long long) c.u, c.base) + vis(c.text);
+    return fmt("%s len=%zu d=%.17g unit=%d special=%d tag=%d prec=%d flags=%d u=%llu base=%d%s text=", kFn[c.fn], c.len, c.d, c.unit, c.special, c.tag, c.prec, c.flags,
+               (unsigned long long) c.u, c.base, c.nullLen ? " copy_len=NULL" : "") + vis(c.text);
 }
 static std::string replayOf(const FCase &c) {
-    return fmt("fn=%d\nd=%s\nunit=%d\nspecial=%d\ntag=%d\nprec=%d\nflags=%d\nu=%llu\nbase=%d\ntext=%s\nlen=%zu\n", c.fn, bitsD(c.d).c_str(), c.unit, c.special, c.tag, c.prec, c.flags,
-               (unsigned long long) c.u, c.base, hexEnc(c.text).c_str(), c.len);
+    return fmt("fn=%d\nd=%s\nunit=%d\nspecial=%d\ntag=%d\nprec=%d\nflags=%d\nu=%llu\nbase=%d\ntext=%s\nlen=%zu\nnulllen=%d\n", c.fn, bitsD(c.d).c_str(), c.unit, c.special, c.tag, c.prec, c.flags,
+               (unsigned long long) c.u, c.base, hexEnc(c.text).c_str(), c.len, (int) c.nullLen);
 }
 
 struct Ctx {   // a bare context: units table for NumberToStr, parameter cursor for ParamCopyText
@@ -58,7 +59,8 @@ static size_t call(const FCase &c, Ctx &k, char *buf, size_t len, XBuf *textCopy
             k.ctx.param_list.lex_state.len = (int) textCopy->n;
             k.ctx.input_count = 0; k.ctx.cmd_error = FALSE;
             size_t cl = 99999;
-            scpi_bool_t ok = SCPI_ParamCopyText(&k.ctx, buf, len, &cl, TRUE);
+            scpi_bool_t ok = SCPI_ParamCopyText(&k.ctx, buf, len, c.nullLen ? nullptr : &cl, TRUE);
+            if (c.nullLen) { if (!ok) { SCPI_ErrorClear(&k.ctx); k.errors = 0; return (size_t) -3; } return len ? strnlen(buf, len) : 0; }   // refused, or accepted: then the text is what the buffer holds
             return ok ? cl : (size_t) -1;
         }
         case F_INT32: return SCPI_Int32ToStr((int32_t) c.u, buf, len);
@@ -75,13 +77,19 @@ static std::string checkOne(const FCase &c, bool *nt = nullptr) {
     char full[160];
     memset(full, 0, sizeof full);
     size_t fl = call(c, k, full, sizeof full, &text);
+    if (fl == (size_t) -3) {      // copy_len == NULL is refused: then nothing may be written for any length either
+        XBuf b0(c.len, 0x7e); size_t r0 = call(c, k, b0.p, c.len, &text);
+        if (!b0.ok()) return "canary after the buffer overwritten (copy_len == NULL): " + describe(c);
+        if (r0 != (size_t) -3) return "copy_len == NULL accepted for one buffer length and refused for another: " + describe(c);
+        return "";
+    }
     if (fl == (size_t) -1 || fl >= sizeof full) return "reference call with a 160-byte buffer failed: " + describe(c);
     std::string T(full, fl);
     if (nt) *nt = T.size() + 1 >= c.len;
     XBuf b(c.len, 0x7e);
     size_t r = call(c, k, b.p, c.len, &text);
     if (!b.ok()) return "canary after the buffer overwritten: " + describe(c);
-    if (r == (size_t) -1) return "call failed with a short buffer: " + describe(c);
+    if (r == (size_t) -1 || r == (size_t) -3) return "call failed with a short buffer: " + describe(c);
     if (r == (size_t) -2) return "SCPI_dtostre did not return the caller's buffer: " + describe(c);
     if (r > c.len) return fmt("returned length %zu exceeds the buffer length: ", r) + describe(c);
     bool nulPromised = !(c.fn == F_COPYTEXT || c.fn >= F_INT32);   // these fill the whole buffer without NUL when the text does not fit
@@ -119,6 +127,7 @@ static void valueSet(std::vector<FCase> &out) {
         for (int i = 0; i < n; i++) { if (mask & (1 << i)) { t += q; t += q; } else t += (char) ('a' + i); }
         t += q;
         FCase c; c.fn = F_COPYTEXT; c.text = t; out.push_back(c);
+        if (n >= 3 && mask < 4) { c.nullLen = true; out.push_back(c); }
     }
     { FCase c; c.fn = F_COPYTEXT; c.text = "\"" + std::string(45, 'x') + "\"\"y\""; out.push_back(c); }
     for (uint64_t u : {0ULL, 7ULL, 0x7fffffffULL, 0x80000000ULL, 0xffffffffULL, 0x8000000000000000ULL, ~0ULL}) for (int b : {2, 8, 10, 16}) {
@@ -139,7 +148,9 @@ static void runGrid(const Opt &o, Ev &ev) {
     int maxLen = o.quick() ? 40 : 70;
     for (auto &v : vs) {
         if ((idx++ % o.workers) != (uint64_t) o.worker) continue;
-        for (size_t len = 0; len <= (size_t) maxLen; len++) {
+        static const size_t farLens[] = {127, 128, 255, 256, 257, 260, 512, 4096, 65535, 65536};     // lengths around the 8- and 16-bit marks
+        for (size_t li = 0; li <= (size_t) maxLen + sizeof farLens / sizeof farLens[0]; li++) {
+            size_t len = li <= (size_t) maxLen ? li : farLens[li - (size_t) maxLen - 1];
             FCase c = v; c.len = len;
             g_cur = c;
             bool nt = false;
@@ -170,8 +181,9 @@ static FCase decode(Src &s) {
         c.text = std::string(1, q);
         for (size_t i = 0; i < n; i++) { if (s.prob(1, 4)) { c.text += q; c.text += q; } else { char ch = (char) s.range(1, 127); if (ch == q) ch = 'q'; c.text += ch; } }
         c.text += q;
+        c.nullLen = s.prob(1, 5);
     }
-    c.len = s.prob(1, 6) ? (size_t) s.range(0, 2) : (size_t) s.range(0, 40);
+    c.len = s.prob(1, 6) ? (size_t) s.range(0, 2) : s.prob(1, 12) ? (size_t) s.pick(std::vector<int>{127, 128, 255, 256, 257, 260, 512, 4096, 65536}) : (size_t) s.range(0, 40);
     return c;
 }
 static std::string body(Src &s, Ev &ev) {
@@ -190,7 +202,7 @@ int main(int argc, char **argv) {
     auto replayOne = [](const Replay &r) {
         FCase c; c.fn = (int) r.num("fn"); uint64_t b = strtoull(r.get("d", "0").c_str(), nullptr, 16); memcpy(&c.d, &b, 8);
         c.unit = (int) r.num("unit"); c.special = (int) r.num("special"); c.tag = (int) r.num("tag"); c.prec = (int) r.num("prec", 6); c.flags = (int) r.num("flags");
-        c.u = strtoull(r.get("u", "0").c_str(), nullptr, 10); c.base = (int) r.num("base", 10); c.text = hexDec(r.get("text")); c.len = (size_t) r.num("len");
+        c.u = strtoull(r.get("u", "0").c_str(), nullptr, 10); c.base = (int) r.num("base", 10); c.text = hexDec(r.get("text")); c.len = (size_t) r.num("len"); c.nullLen = r.num("nulllen") != 0;
         return checkOne(c);
     };
     subs.push_back({"one", [](const Opt &, Ev &) {}, replayOne});
